@@ -1,6 +1,7 @@
 package main
 
 import (
+	"go/constant"
 	"fmt"
 	"go/token"
 	"strings"
@@ -150,6 +151,56 @@ func witnessUpdateGuards(P *Program, R *Report) {
 					if desc(retValue(ret, 0)) == "global:revocation.ErrorRevoked" {
 						okRev = true
 					}
+				}
+			}
+		}
+		if gcdIf != nil && gcdIf.Parent() != fn && !okRev {
+			// the test sits in a helper: its failing side returns a constant flag, and the caller turns exactly
+			// that flag value into ErrorRevoked
+			g := gcdIf.Parent()
+			for _, s := range gcdIf.Block().Succs {
+				ret, isRet := s.Instrs[len(s.Instrs)-1].(*ssa.Return)
+				if !isRet {
+					continue
+				}
+				for k, rv := range ret.Results {
+					cst, isC := rv.(*ssa.Const)
+					if !isC || cst.Value == nil || cst.Value.Kind() != constant.Bool {
+						continue
+					}
+					flag := constant.BoolVal(cst.Value)
+					allInstrs(fn, func(i ssa.Instruction) {
+						c, isCall := i.(*ssa.Call)
+						if !isCall || c.Call.StaticCallee() != g {
+							return
+						}
+						for _, r := range referrersOf(c) {
+							ex, isEx := r.(*ssa.Extract)
+							if !isEx || ex.Index != k {
+								continue
+							}
+							for _, b := range fn.Blocks {
+								iff, isIf := b.Instrs[len(b.Instrs)-1].(*ssa.If)
+								if !isIf {
+									continue
+								}
+								a := normAtom(Atom{Fn: fn, V: iff.Cond, Want: True})
+								if a.V != ssa.Value(ex) {
+									continue
+								}
+								// Succs[0] is taken when ex == (a.Want == True)
+								for si, sb := range b.Succs {
+									val := (a.Want == True) == (si == 0)
+									if val != flag {
+										continue
+									}
+									if ret2, isRet2 := sb.Instrs[len(sb.Instrs)-1].(*ssa.Return); isRet2 && desc(retValue(ret2, 0)) == "global:revocation.ErrorRevoked" {
+										okRev = true
+									}
+								}
+							}
+						}
+					})
 				}
 			}
 		}
@@ -401,8 +452,14 @@ func accumulatorRemoveRule(P *Program, R *Report) {
 		for f, st := range es {
 			ge[f] = desc(st.Val)
 		}
+		evIdx := ""
+		if st := es["Index"]; st != nil {
+			if a, ok := affineOf(st.Val); ok {
+				evIdx = a.String()
+			}
+		}
 		R.decide(rule, FuncKey(fn)+":event", "the event carries e, the new index and the hash of its parent",
-			ge["E"] == "arg#2" && ge["Index"] == "new:revocation.Accumulator.Index" && ge["ParentHash"] == "call:revocation.(*Event).hash(<revocation.Event>)", fmt.Sprint(ge), P.Pos(fn.Pos()))
+			ge["E"] == "arg#2" && (ge["Index"] == "new:revocation.Accumulator.Index" || evIdx == parseAffine("<revocation.Accumulator>.Index+1").String()) && ge["ParentHash"] == "call:revocation.(*Event).hash(<revocation.Event>)", fmt.Sprint(ge), P.Pos(fn.Pos()))
 		// EventHash of the new accumulator is the hash of that event
 		okH := false
 		for _, s := range sinksOf(fn) {
@@ -429,19 +486,9 @@ func accumulatorRemoveRule(P *Program, R *Report) {
 		R.decide(rule, FuncKey(fn)+":E", "the witness carries e", e == "arg#2", e, P.Pos(fn.Pos()))
 	}
 	if fn := mustFunc(P, R, rule, "revocation.verify"); fn != nil {
-		mp(P, R, rule, "revocation.verify:relation", "verify is true only if u^e mod N compared equal to the accumulator's Nu", fn, AcceptTrue(0), &MustPass{Match: func(a Atom) bool {
-			x, y, ok := parseEq(a)
-			if !ok {
-				return false
-			}
-			for _, pr := range [][2]ssa.Value{{x, y}, {y, x}} {
-				c, isC := pr[0].(*ssa.Call)
-				if isC && bigMethod(c) == "Exp" && desc(c.Call.Args[1]) == "arg#0" && desc(c.Call.Args[2]) == "arg#1" && desc(c.Call.Args[3]) == pkD+".N" && desc(pr[1]) == "<revocation.Accumulator>.Nu" {
-					return true
-				}
-			}
-			return false
-		}})
+		be := P.bigEval(fn)
+		mp(P, R, rule, "revocation.verify:relation", "verify is true only if u^e mod N compared equal to the accumulator's Nu", fn, AcceptTrue(0),
+			&MustPass{Match: eqTermMatcher(be, termFn("Exp", tsym("arg#0"), tsym("arg#1"), tsym(pkD+".N")), tsym("<revocation.Accumulator>.Nu"))})
 	}
 }
 
